@@ -284,9 +284,21 @@ impl std::ops::Not for RowIdMask {
     type Output = Self;
 
     fn not(self) -> Self::Output {
-        Self {
-            block_list: self.allow_list,
-            allow_list: self.block_list,
+        // Normalize first so that at most one of the lists is set; swapping the
+        // lists is only a complement in that case.
+        match self.normalize() {
+            // The complement of "all rows" is "no rows" (not "all rows")
+            Self {
+                allow_list: None,
+                block_list: None,
+            } => Self::allow_nothing(),
+            Self {
+                allow_list,
+                block_list,
+            } => Self {
+                block_list: allow_list,
+                allow_list: block_list,
+            },
         }
     }
 }
@@ -339,7 +351,8 @@ impl std::ops::BitOr for RowIdMask {
                 rhs_block_list -= allow_list;
                 Some(rhs_block_list)
             } else {
-                Some(rhs_block_list)
+                // LHS is allow all, so the RHS block list disappears
+                None
             }
         } else {
             None
